@@ -2,6 +2,7 @@ import CTV.Basic.Proto
 import CTV.Rfc6962.Wire
 import CTV.Rfc6962.Api
 import CTV.Model.CtWire
+import CTV.Sha256
 /-! ctvmodel C04: answers every line of the C04 harness from the RFC transcription (`Rfc.*`) alone. -/
 namespace CTV.Driver.C04
 open CTV CTV.Proto
@@ -324,6 +325,10 @@ def handle (line : String) : String :=
       else if name = "PrecertChain" then decRes (Rfc.decPrecertChainEntry bs) fun e => s!"pre={hexOrDash e.preCertificate} {showChain e.chain}"
       else if name = "SCTList" then decRes (Rfc.decSctList bs) showChain
       else "bad-op"
+  | ["LH", l] =>
+    match fromHex l with
+    | some l => toHex (Sha256.hash (Rfc.leafHashInput l))
+    | none => "bad-op"
   | ["LEAF", l, x] =>
     match fromHex l, fromHex x with
     | some l, some x =>
